@@ -621,6 +621,7 @@ pub fn programs(tier: &str) -> Vec<Program> {
   );
   p6b.user_yield = true;
   v.push(p6b);
+  v.extend(generated_programs(tier));
   if thorough {
     let mut p6c = mk(
       "P6c cached(script) stream||stream||map",
@@ -643,8 +644,78 @@ pub fn programs(tier: &str) -> Vec<Program> {
   v
 }
 
+/// Systematically generated programs: for each shared object shape, every unordered pair of
+/// single operations from an 8-call alphabet (2 threads), on the object itself and - for the
+/// cached shapes - on the object and a pre-made clone sharing its cache; in the thorough tier also
+/// every 3-thread program over a 4-call alphabet.
+pub fn generated_programs(tier: &str) -> Vec<Program> {
+  use CsCall::*;
+  let thorough = tier == "thorough";
+  let shapes: Vec<(&str, Term, bool)> = vec![
+    ("replace", unsorted_replace(), false),
+    ("cached", cached_tree(), true),
+    ("cached(replace)", Term::cached(unsorted_replace()), true),
+    ("concat[cached(replace),raw]", Term::concat(vec![Term::cached(unsorted_replace()), Term::raw("t\n")]), false),
+    ("replace(rawbuffer)", Term::replace(Term::RawBufS(vec![b'a', 0xff, b'\n', b'b']), vec![Repl::new(4, 5, "Y"), Repl::new(0, 1, "X")]), false),
+  ];
+  let calls: Vec<(&str, fn(usize) -> Op)> = vec![
+    ("source", |i| Op::Call(i, Source)),
+    ("hash", |i| Op::Call(i, Hash)),
+    ("map(T)", |i| Op::Call(i, MapT)),
+    ("map(F)", |i| Op::Call(i, MapF)),
+    ("stream(T)", |i| Op::Call(i, StreamTN)),
+    ("stream(T,final)", |i| Op::Call(i, StreamTF)),
+    ("clone->source", |i| Op::CloneCall(i, Source)),
+    ("clone->map(T)", |i| Op::CloneCall(i, MapT)),
+  ];
+  let mut v = Vec::new();
+  for (sname, term, cached) in &shapes {
+    for a in 0..calls.len() {
+      for b in a..calls.len() {
+        v.push(Program {
+          name: format!("G2 {sname}: {} || {}", calls[a].0, calls[b].0),
+          objs: vec![Obj::Build(term.clone())],
+          threads: vec![vec![calls[a].1(0)], vec![calls[b].1(0)]],
+          user_yield: false,
+        });
+        if *cached && a < 6 && b < 6 {
+          v.push(Program {
+            name: format!("G2c {sname}: {} || clone.{}", calls[a].0, calls[b].0),
+            objs: vec![Obj::Build(term.clone()), Obj::CloneOf(0)],
+            threads: vec![vec![calls[a].1(0)], vec![calls[b].1(1)]],
+            user_yield: false,
+          });
+        }
+      }
+    }
+    if thorough {
+      let small = [0usize, 1, 2, 4];
+      for (x, &a) in small.iter().enumerate() {
+        for (y, &b) in small.iter().enumerate().skip(x) {
+          for &c in small.iter().skip(y) {
+            v.push(Program {
+              name: format!("G3 {sname}: {} || {} || {}", calls[a].0, calls[b].0, calls[c].0),
+              objs: vec![Obj::Build(term.clone())],
+              threads: vec![vec![calls[a].1(0)], vec![calls[b].1(0)], vec![calls[c].1(0)]],
+              user_yield: false,
+            });
+          }
+        }
+      }
+    }
+  }
+  v
+}
+
 pub fn bound_for(tier: &str, p: &Program) -> usize {
   let ops: usize = p.threads.iter().map(|t| t.len()).sum();
+  if p.name.starts_with('G') {
+    return match (tier == "thorough", p.threads.len()) {
+      (true, 2) => 3,
+      (true, _) => 2,
+      (false, _) => 2,
+    };
+  }
   if tier == "thorough" {
     if p.threads.len() == 2 && ops <= 2 {
       6
@@ -698,7 +769,12 @@ pub fn bounds(tier: &str) -> Value {
   let progs = programs(tier);
   json!({
     "engine": "E5 sched: real threads run one at a time, yielding at guarded hook points before every shared-state access; enabledness from probes of the real DashMap locks and OnceLock begin/end events; DFS over all schedules with a preemption bound; every schedule runs to completion",
-    "programs": progs.iter().map(|p| json!({"name": p.name, "threads": p.threads.len(), "ops": p.threads.iter().map(|t| t.len()).sum::<usize>(), "preemption_bound": bound_for(tier, p)})).collect::<Vec<_>>(),
+    "hand_written_programs": progs.iter().filter(|p| !p.name.starts_with('G')).map(|p| json!({"name": p.name, "threads": p.threads.len(), "ops": p.threads.iter().map(|t| t.len()).sum::<usize>(), "preemption_bound": bound_for(tier, p)})).collect::<Vec<_>>(),
+    "generated_programs": {
+      "count": progs.iter().filter(|p| p.name.starts_with('G')).count(),
+      "rule": "for each of 5 shared object shapes (replace, cached, cached(replace), concat[cached(replace),raw], replace(rawbuffer)): every unordered pair of single calls from {source, hash, map(T), map(F), stream(T), stream(T,final), clone->source, clone->map(T)} on 2 threads; for cached shapes also original || pre-made clone; thorough: every 3-thread multiset over {source, hash, map(T), stream(T)}",
+      "preemption_bound": if tier == "thorough" { "3 (2 threads) / 2 (3 threads)" } else { "2" },
+    },
     "per_program_results": "see coverage.counters: '<program> | schedules', '... with k preemptions', 'distinct interleavings', 'preemption bound completed'",
     "not_explored": "interleavings finer than the hook points; weak-memory reorderings (the code uses SeqCst atomics and locks only)",
   })
